@@ -403,6 +403,9 @@ func keyFunctionsErrorDiscipline(c *Ctx, r *Report, rule string) {
 			if strings.HasPrefix(k, "fmt.Errorf") || strings.HasPrefix(k, "errors.") || k == "os.Remove" || k == "os.RemoveAll" {
 				return // (removing a temporary file is best-effort cleanup, not part of storing / reading the key)
 			}
+			if strings.HasPrefix(k, "fmt.Fprint") && len(call.Call.Args) > 0 && isStderr(call.Call.Args[0]) {
+				return // a diagnostic on stderr: its failure is not a failure of the key operation
+			}
 			n++
 			okh, detail := checkCallErrHandled(call, true, nil)
 			r.Check(okh, rule, fmt.Sprintf("%s:err(%s)", f.Name(), shortKey(k)), c.InstrPos(call), detail,
